@@ -10,7 +10,7 @@ def components():
 
 
 def oracles_():
-    return [X.XPathFastPair(), X.XPathSan()]
+    return [X.XPathFastPair(), X.XPathRegress(), X.XPathSan()]
 
 
 TRUSTED = [
